@@ -17,7 +17,11 @@
     param   := p<x> | q<x> expr     (q: with DEFAULT expr)
     expr    := n | t | f | u | i<int> | v<x> | + e e | - e e | < e e | = e e | c<f> <na> expr*na
 
-  answer:   <flow> | <printed values, oldest first> | <variables of the global block> | <functions of the global block>
+  answer:   <flow> | <printed values, oldest first> | <variables of every block left, innermost first, blocks
+            separated by "/"> | <functions …, as name:number of parameters>
+    flow    := N (Terminate) | X (Exit) | B | K | R<value> (Break / Continue / Return reaching the top level: only in
+               syntax trees csvq's parser rejects) | E<csvq error number> | Efuel
+    value   := N | I<int> | TT | TF | TU
 -/
 import Csvq.Model.Scope
 namespace Csvq.Drive
